@@ -98,3 +98,41 @@ getPositionsWithSiteIds = FunctionSpec(
 )
 
 SPECS = [toRelativeGenomicPositions, trim, getPositionsWithSiteIds]
+
+# ------------------------------------------------------------------ lemmas over the contracts
+from pyvc.lemma import LemmaSpec
+
+
+def _trim_idempotent(L):
+    m = L.fresh(OMAP, 'm')
+    t = L.call(trim, m)
+    tt = L.call(trim, t)
+    T, TT = L.view(t), L.view(tt)
+    k = z3.Int('k')
+    L.check('trim_of_trim_has_the_same_positions', z3.And(TT.positions.len == T.positions.len,
+            forall(k, z3.Implies(rng(0, k, T.positions.len), TT.positions[k] == T.positions[k]), [TT.positions[k]])))
+    L.check('trim_of_trim_has_the_same_length_and_id', z3.And(TT.moleculeId == T.moleculeId,
+                                                            z3.Implies(T.positions.len > 0, TT.length == T.length)))
+
+
+def _mirror(L):
+    """C11 mirror lemma: for a trimmed query Q with labels p_1..p_N and its mirror image Q' (p'_k = p_N - p_{N+1-k}, same length), reading Q'
+    forwards gives the same coordinate sequence as reading Q on the reverse strand, with label k of one being label N+1-k of the other"""
+    q, qm = L.fresh(OMAP, 'q'), L.fresh(OMAP, 'qmirror')
+    Q, M = L.view(q), L.view(qm)
+    n = Q.positions.len
+    k = z3.Int('k')
+    L.assume(n >= 1, Q.shift == 0, M.shift == 0, M.positions.len == n, Q.positions[0] == 0, Q.length == Q.positions[n - 1] + 1,
+             M.length == Q.length,
+             forall(k, z3.Implies(rng(0, k, n), M.positions[k] == Q.positions[n - 1] - Q.positions[n - 1 - k]), [M.positions[k]]))
+    rev = L.call(getPositionsWithSiteIds, q, VBool(z3.BoolVal(True)))
+    fwd = L.call(getPositionsWithSiteIds, qm, VBool(z3.BoolVal(False)))
+    R, Fw = L.view(rev), L.view(fwd)
+    L.check('same_coordinates_in_the_same_order', z3.And(R.len == Fw.len, forall(k, z3.Implies(rng(0, k, n), R[k].position == Fw[k].position),
+                                                                               [R.raw(k).t])))
+    L.check('label_k_is_label_N_plus_1_minus_k', forall(k, z3.Implies(rng(0, k, n), R[k].siteId == n + 1 - Fw[k].siteId), [R.raw(k).t]))
+
+
+LEMMAS = [LemmaSpec('C17::trim_is_idempotent', _trim_idempotent, ('C17',), "trim(trim(m)) == trim(m) field-wise, from the contract of OpticalMap.trim"),
+          LemmaSpec('C11::mirror_image_read_forwards_equals_query_read_on_reverse_strand', _mirror, ('C11',),
+                    "from the contract of getPositionsWithSiteIds")]
